@@ -125,9 +125,11 @@ def reload_scripts(rng, n):
                 nxt = 3
             else:
                 nxt = 2
-            ev += [{"t": "reload", "services": []}, {"t": "reload", "services": [[other, rng.choice(["login", "login-ipr"])]]}]
+            otherp = rng.choice(["login", "login-ipr"])
+            ev += [{"t": "reload", "services": []}, {"t": "reload", "services": [[other, otherp]]}]
             if rng.random() < 0.4:
-                ev += [{"t": "reload", "services": [[other, "login"], ["named.svc", "login"]]}]
+                # (a name keeps its protocol across the reloads of one history - the monitor's standing assumption)
+                ev += [{"t": "reload", "services": [[other, otherp], ["named.svc", lp2]]}]
                 # named.svc is back (a new entry): it is asked, and it refuses to vouch - only the other one says OK
                 ev += client(9, "u2", other, "9_%x" % nxt, "OK u2")[:-1] + [{"t": "unlinked", "svc": "named.svc", "tag": "9_%x" % nxt, "text": "Server not online"}, {"t": "hurry", "id": 9}]
             else:
